@@ -136,6 +136,11 @@ class FsmWorld(pipe.PipeWorld):
         # fault 'slow reactor': the callback of a finished background step (deferToThread) may reach the reactor a
         # little late - other events slip in between a poll and its callback (most runs: no delay)
         self.sim.cb_delays = self.cfg.get('cb_delays', [0, 0, 0, 0.05, 0.3])
+        # line-level pre-emption of the background steps (pool threads): between two lines of the life-cycle, farm,
+        # scheduler and submit modules a step may lose the processor to the reactor (a few times per thread)
+        if self.cfg.get('preempt', True):
+            self.sim.preempt = dict(files=('dawgie/pl/state.py', 'dawgie/pl/farm.py', 'dawgie/pl/schedule.py', 'dawgie/fe/api/submit.py',
+                                           'dawgie/fe/submit.py', 'dawgie/tools/submit.py', 'dawgie/pl/scan.py'), rate=(1, 12), max=4)
         # opening and closing the database is file I/O: a background step may be held up right there, and the reactor
         # goes on meanwhile (the only pre-emption points inside pool-thread bodies; there is no line-level pre-emption)
         import dawgie.db
@@ -293,6 +298,7 @@ class FsmWorld(pipe.PipeWorld):
         for th in sim.threads:
             if not th.done and not th.dead and any(th.name.endswith(':' + b) for b in BACKGROUND):
                 out.append(th.name)
+                self.last_outstanding_label = th.label
         for _seq, fn, _ready in sim.fromthread:
             out.append('callback:' + getattr(fn, '__name__', 'f'))
         for p in sim.processes:
@@ -412,7 +418,7 @@ class FsmWorld(pipe.PipeWorld):
             hard = [o for o in out if o.startswith('pool-')]
             if hard:
                 self.violate('C10', 'active_while_transitioning', hard[0].split(':')[-1],
-                             f'pipeline declares itself active while background steps are outstanding: {hard}')
+                             f'pipeline declares itself active while background steps are outstanding: {hard} (last one is at: {getattr(self, "last_outstanding_label", "?")})')
         if not out and not self.sim._soon:
             if fsm.state not in ('running', 'gitting') or fsm.transitioning.name != 'active':
                 self.rest_bad = getattr(self, 'rest_bad', 0) + 1
